@@ -34,7 +34,21 @@ NoResidue(o) == /\ Fld(o, "ctrl", 0) = 0 /\ Fld(o, "lvl", 0) = 0
                 /\ Fld(o, "undo", 0) = 0 /\ ~Fld(o, "parsing", FALSE)
 
 \* observed value o against ideal value v (a wildcard null matches any null)
-VEq(o, v) == IF v.t = "null" /\ v.ty.m = "any" THEN o.t = "null" ELSE o = v
+\* (TLC cannot compare records whose fields hold values of different kinds, so tags are compared first)
+RECURSIVE VSame(_, _)
+VSame(a, b) ==
+  /\ a.t = b.t
+  /\ CASE a.t = "int" -> a.v = b.v
+        [] a.t = "bool" -> a.v = b.v
+        [] a.t = "dec" -> a.h = b.h
+        [] a.t = "str" -> "v" \in DOMAIN a /\ "v" \in DOMAIN b /\ a.v = b.v
+        [] a.t = "raw" -> a.b = b.b
+        [] a.t = "null" -> a.ty = b.ty
+        [] a.t \in {"tup", "tab"} -> a.ty = b.ty /\ Len(a.v) = Len(b.v) /\ \A j \in DOMAIN a.v : VSame(a.v[j], b.v[j])
+        [] a.t = "cpx" -> a.a.t = b.a.t /\ a.b.t = b.b.t /\ a.a = b.a /\ a.b = b.b
+        [] a.t = "none" -> TRUE
+        [] OTHER -> FALSE
+VEq(o, v) == IF v.t = "null" /\ v.ty.m = "any" THEN o.t = "null" ELSE VSame(o, v)
 
 (* -------------- invariants of every observed value (C09) -------------- *)
 \* every element of a table has exactly the table's element type, every tuple item the declared type
@@ -100,7 +114,15 @@ StaticRejectable(S) == S.sig = "err" /\ S.err.kind = "OTHER" /\ S.err.name \in {
 (* ------------------------------ one step ------------------------------ *)
 \* returns [C |-> new contexts, why |-> "" or reason]
 StepResult(st, o, c) ==
-  CASE st.op = "step" /\ ~Has(st, "reject") ->
+  CASE st.op \in {"exec", "step"} /\ Has(st, "maybe_reject") ->
+         \* a text derived by cutting/corrupting a valid program: if it is rejected nothing may have changed;
+         \* if the parser accepts it the monitor does not know its meaning and loses track of the context
+         IF o.oc = "parse_error"
+         THEN [C |-> c, why |-> IF ~NoResidue(o) THEN "parse state left behind by a rejected text"
+                                ELSE IF o.out # "" THEN "a rejected text produced output" ELSE ""]
+         ELSE [C |-> PutCtx(c, st.ctx, [State0 EXCEPT !.unk = TRUE]),
+               why |-> IF o.oc \in {"ok", "runtime_error"} THEN "" ELSE "outcome outside the alphabet: " \o o.oc]
+    [] st.op = "step" /\ ~Has(st, "reject") ->
          LET r == RunStepwise(st.ast, CtxOf(c, st.ctx))
              S == IF r.first.kind = "" THEN [r.S EXCEPT !.sig = ""] ELSE [r.S EXCEPT !.sig = "err", !.err = r.first]
          IN  [C |-> PutCtx(c, st.ctx, Settle(r.S)),
